@@ -12,7 +12,12 @@ VARIABLES tid, l
 T == All[tid]
 Chk(ok, name) == IF ok THEN {} ELSE {name}
 
-Apply(st, val) == CASE st[1] = 0 -> val [] st[1] = 1 -> st[2] [] st[1] = 2 -> val + st[2] [] st[1] = 3 -> val - st[2] [] st[1] = 4 -> val * st[2]
+(* the state is the pair <<x, y>> of two attributes of one object; statement codes (harness/tsadrive.py C27_FORMS): *)
+(* 0 read x, 1 x = v, 2 x += v, 3 x -= v, 4 x *= v, 5 x += y, 6 y = v, 7 y += v, 8 x += v through a nested attribute  *)
+Apply(st, val) == CASE st[1] = 0 -> val [] st[1] = 1 -> <<st[2], val[2]>> [] st[1] = 2 -> <<val[1] + st[2], val[2]>>
+                    [] st[1] = 3 -> <<val[1] - st[2], val[2]>> [] st[1] = 4 -> <<val[1] * st[2], val[2]>>
+                    [] st[1] = 5 -> <<val[1] + val[2], val[2]>> [] st[1] = 6 -> <<val[1], st[2]>>
+                    [] st[1] = 7 -> <<val[1], val[2] + st[2]>> [] st[1] = 8 -> <<val[1] + st[2], val[2]>>
 RECURSIVE Outs(_, _, _)
 Outs(P, idx, val) ==
   LET live == {t \in 1..Len(P) : idx[t] <= Len(P[t])}
@@ -28,10 +33,14 @@ RECURSIVE Play(_, _, _)
 Play(ops, i, m) ==      \* m: set of <<inst, attr, value>>
   IF i > Len(ops) THEN {}
   ELSE LET o == ops[i]
-           cur == IF \E x \in m : x[1] = o[2] /\ x[2] = o[4] THEN (CHOOSE x \in m : x[1] = o[2] /\ x[2] = o[4])[3] ELSE 0
+           Val(inst, attr) == IF \E x \in m : x[1] = inst /\ x[2] = attr THEN (CHOOSE x \in m : x[1] = inst /\ x[2] = attr)[3] ELSE 0
+           cur == Val(o[2], o[4])
+           (* "aug": `a.attr += b.attr2` - a's new value is a's own old value plus b's own value *)
+           new == IF o[1] = "set" THEN o[5] ELSE IF o[1] = "aug" THEN cur + Val(o[7], o[8]) ELSE cur
        IN Chk(o[6] = "ok", "Raised")
           \cup (IF o[1] = "get" THEN Chk(o[5] = cur, "NotItsOwnValue") ELSE {})
-          \cup Play(ops, i + 1, IF o[1] = "set" THEN {x \in m : ~(x[1] = o[2] /\ x[2] = o[4])} \cup {<<o[2], o[4], o[5]>>} ELSE m)
+          \cup (IF o[1] = "aug" /\ o[6] = "ok" THEN Chk(o[5] = new, "NotItsOwnValue") ELSE {})
+          \cup Play(ops, i + 1, IF o[1] \in {"set", "aug"} THEN {x \in m : ~(x[1] = o[2] /\ x[2] = o[4])} \cup {<<o[2], o[4], new>>} ELSE m)
 V29 == Play(T.ops, 1, {})
 Verdict == CASE T.kind = "c27" -> V27 [] T.kind = "c28" -> V28 [] T.kind = "c29" -> V29
 TInit == tid \in DOMAIN All /\ l = 1
